@@ -1,6 +1,6 @@
 (* C09 correspondence: how the observed answers of acl.Compile / CompiledRuleSet.Match /
    aclEngine.handle are compared with the model.  Used by the generated run/C09/cases_*.v files. *)
-From Hy Require Import lib.Harness model.C09_ACL proof.C09_ACL.
+From Hy Require Import lib.Harness model.C09_ACL proof.C09_ACL model.C09_Conc.
 From Coq Require Import ZArith.
 Local Open Scope N_scope.
 
@@ -12,7 +12,20 @@ Inductive case :=
        (qs : list (nat * N * N)) (pool : list (N * list byte)) (exp : option (list nat))
 (* engine: outbound entries in order; observed per query: outbound id, rewritten?, new ResolveInfo v4, v6 *)
 | CEng (entries : list (str * N)) (rules : list trule) (hosts : list host)
-       (qs : list (nat * N * N)) (pool : list (N * N * list byte * list byte)) (exp : option (list nat)).
+       (qs : list (nat * N * N)) (pool : list (N * N * list byte * list byte)) (exp : option (list nat))
+(* overlapping lookups on one compiled rule set, schedule observed by the gate harness (package acl):
+   HStart q = a new caller entered Match(q) and performed its Cache.Get (it was then either suspended
+   inside the rule scan or ran to its return); HDone i = caller i (numbered by HStart order) left the
+   scan, performed its Cache.Add if its Get had missed, and returned.  exp: the answer of every caller,
+   by caller number, as indices into the pool. *)
+| CConc (obs : list (str * N)) (rules : list trule) (csize : Z) (hosts : list host)
+        (evs : list hev) (pool : list (N * list byte)) (exp : list nat)
+(* lookups made by many goroutines at once with an unknown interleaving: by C09_concurrent_lookups
+   every answer, in every interleaving, is the fresh evaluation; qs / exp list every DISTINCT
+   (query, answer) pair that was observed. *)
+| CConcAny (obs : list (str * N)) (rules : list trule) (csize : Z) (hosts : list host)
+        (qs : list (nat * N * N)) (pool : list (N * list byte)) (exp : list nat)
+with hev := HStart (q : nat * N * N) | HDone (i : nat).
 
 Definition mkq (hosts : list host) (q : nat * N * N) : query :=
   mkQuery (nth (fst (fst q)) hosts (mkHost [] [] [])) (snd (fst q)) (snd q).
@@ -35,6 +48,24 @@ Definition eng_eqb (r : N * rewrite) (o : N * N * list byte * list byte) : bool 
   | RwHijack _ a b => (rw =? 1) && beqb v4 a && beqb v6 b
   end.
 
+(* observed schedule -> schedule of the LTS of model/C09_Conc.v; n = number of callers so far *)
+Fixpoint to_cevs (hosts : list host) (n : nat) (evs : list hev) : list cev :=
+  match evs with
+  | [] => []
+  | HStart q :: t => ESpawn (mkq hosts q) :: EStep n :: to_cevs hosts (S n) t
+  | HDone i :: t => EStep i :: to_cevs hosts n t
+  end.
+
+Definition ans_eqb (a : option (query * result)) (o : N * list byte) : bool :=
+  match a with Some (_, r) => res_eqb r o | None => false end.
+
+Definition ans_fresh (rs : list rule) (a : option (query * result)) : bool :=
+  match a with
+  | Some (q, r) => let f := fresh rs q in
+                   match fst r, fst f with Some x, Some y => x =? y | None, None => true | _, _ => false end && beqb (snd r) (snd f)
+  | None => false
+  end.
+
 Definition DIRECT : N := 1000.
 Definition REJECT : N := 1001.
 
@@ -52,6 +83,21 @@ Definition check (c : case) : bool :=
           | None => false
           end
       | Err EInvalid => match exp with None => true | Some _ => false end
+      | _ => false
+      end
+  | CConc obs rules csize hosts evs pool exp =>
+      match compile obs rules csize with
+      | Ok rs =>
+          let e := map (fun i => nth i pool (77777, [])) exp in
+          let a := answers (snd (conc_run ip_str_hex (pol_fifo (Z.to_nat csize) 0) rs (to_cevs hosts 0 evs))) in
+          all2 ans_eqb a e && forallb (ans_fresh rs) a
+      | _ => false
+      end
+  | CConcAny obs rules csize hosts qs pool exp =>
+      match compile obs rules csize with
+      | Ok rs =>
+          let e := map (fun i => nth i pool (77777, [])) exp in
+          all2 res_eqb (map (fresh rs) (map (mkq hosts) qs)) e
       | _ => false
       end
   | CEng entries rules hosts qs pool exp =>
